@@ -1513,9 +1513,12 @@ class Solid:
     #: The RGB colour this brush appears as in 2D views. Randomly assigned when the brush is
     #: created, but then set to the colour of the tied entity or visgroup.
     editor_color: Vec = attrs.field(factory=lambda: Vec(255, 255, 255))
+    # Set once our ID is allocated. If __init__() fails, .id is only the requested ID.
+    _id_owned: bool = attrs.field(init=False, default=False, repr=False)
 
     def __attrs_post_init__(self) -> None:
         self.id = self.map.solid_id.get_id(self.id)
+        self._id_owned = True
 
     def copy(
         self,
@@ -1645,7 +1648,9 @@ class Solid:
 
     def __del__(self) -> None:
         """Forget this solid's ID when the object is destroyed."""
-        self.map.solid_id.discard(self.id)
+        # A brush whose construction failed never got an ID, the value may be another brush's.
+        if getattr(self, '_id_owned', False):
+            self.map.solid_id.discard(self.id)
 
     def remove(self) -> None:
         """Remove this brush from the map."""
